@@ -220,10 +220,23 @@ void refexec_run(const struct gm_spec *spec, uint64_t prng_seed, struct ref_resu
 		}
 		free(im);
 	}
+	size_t horizon_at = 0;
 	while(pend_head < pend_n) {
 		if(out->total_events >= max_events) {
 			out->truncated = 1;
 			break;
+		}
+		if(spec->endless) { /* stop 2000 events after the last predicate became true */
+			if(!horizon_at) {
+				int all = 1;
+				for(unsigned i = 0; i < spec->n_lps; i++)
+					all &= out->tau[i] != INFINITY;
+				if(all)
+					horizon_at = out->total_events + 2000;
+			} else if(out->total_events >= horizon_at) {
+				out->horizon = 1;
+				break;
+			}
 		}
 		struct lp_msg *m = pend[pend_head++];
 		if(pend_head > 4096 && pend_head * 2 > pend_n) { /* compact */
